@@ -92,7 +92,10 @@ static inline struct ring_head *ring_move_tail_one(struct ring_head *r)
 static inline struct ring_head *ring_move_head(struct ring_head *r,
                                                unsigned int bias)
 {
-    r->head += bias;
+    if (bias >= r->size - r->head)
+        r->head = bias - (r->size - r->head);
+    else
+        r->head += bias;
     ring_fixup_head(r);
     return r;
 }
@@ -100,7 +103,10 @@ static inline struct ring_head *ring_move_head(struct ring_head *r,
 static inline struct ring_head *ring_move_tail(struct ring_head *r,
                                                unsigned int bias)
 {
-    r->tail += bias;
+    if (bias >= r->size - r->tail)
+        r->tail = bias - (r->size - r->tail);
+    else
+        r->tail += bias;
     ring_fixup_tail(r);
     return r;
 }
